@@ -4,6 +4,7 @@
 mod common;
 mod c05;
 mod c06;
+mod c07;
 mod c09;
 mod c16;
 mod c17;
@@ -43,6 +44,7 @@ fn main() {
     let res = std::panic::catch_unwind(|| match id.as_str() {
         "C05" => c05::run_check(tier, replay),
         "C06" => c06::run(tier, replay),
+        "C07" => c07::run(tier, replay),
         "C09" => c09::run(tier, replay),
         "C16" => c16::run(tier, replay),
         "C17" => c17::run(tier, replay),
